@@ -15,8 +15,8 @@ META = {
                   '(any length, any number of hosts/sessions); C25_up_once_per_transition proved for every state and step (a step that '
                   'marks a host up notifies listeners exactly once; after fix 626e3cb); the full "down => reconnector" and '
                   '"up => pools" statements are refuted in Coq by witnesses that replay on the driver (open findings C25-3, C25-4).',
-    'level_note': 'Partial: one step = one whole call (executor task / scheduler firing / external event); preemption inside a call '
-                  '(e.g. between _ReconnectionHandler.run\'s on_reconnection and its callback) is not modelled. Distances are fixed per '
+    'level_note': 'Partial: one step = one whole call (executor task / scheduler firing / external event), except reconnection attempts, '
+                  'which may be split into start / result with other events in between; other preemption inside a call is not modelled. Distances are fixed per '
                   'host; empty reconnection schedules and re-adding a removed endpoint are excluded.',
     'design_ref': 'DESIGN.md section 4, C25',
 }
@@ -64,6 +64,18 @@ def run(ctx):
     with open(os.path.join(HERE, 'corpus', 'C25', 'prefix-failures.json')) as f:
         for item in json.load(f):
             one(item['cfg'], [tuple(e) for e in item['events']], sample=True)
+    # directed: reconnection attempts split into start / result with an event delivered in between
+    for cfg, evs in c25.directed_split():
+        one(cfg, evs)
+        ctx.count('stream', 'directed-split')
+    # exhaustive small scope: failed mark-up with two sessions, EVERY executor order and outcome of the next steps
+    scope_cfg = {'nhosts': 1, 'hosts': ['up'], 'nsess': 2, 'sched': None}
+    depth = 3 if ctx.tier == 'quick' else 4
+    for evs in c25.enum_scope(scope_cfg, [('fail', 0), ('run', 0, 'ok'), ('recon', 0, 'ok')], depth):
+        one(scope_cfg, evs)
+        ctx.count('stream', 'scope-failed-markup')
+    ctx.extra['exhaustive_scope'] = ('1 host, 2 sessions: fail; on_down; reconnect ok; then every sequence of <= %d executor/scheduler '
+                                     'steps (any queue index, every outcome)' % depth)
     n = 800 if ctx.tier == 'quick' else 6000
     for i in range(n):
         cfg = c25.gen_cfg(ctx.rng)
